@@ -51,21 +51,23 @@ func (k Keeper) PostTxProcessing(
 	_ core.Message,
 	receipt *ethtypes.Receipt,
 ) error {
-	params := k.GetParams(ctx)
-	if !params.EnableErc20 || !params.EnableEVMHook {
-		// no error is returned to avoid reverting the tx and allow for other post
-		// processing txs to pass and
-		return nil
-	}
-
 	erc20 := contracts.ERC20MinterBurnerDecimalsContract.ABI
 
 	// A registered token that hands out an allowance over the tokens held by the
 	// module account can have its escrow drained afterwards. The module never
 	// approves anyone, so such an event is unexpected: fail (and thereby revert)
-	// the transaction, as the ConvertCoin/ConvertERC20 messages do.
+	// the transaction, as the ConvertCoin/ConvertERC20 messages do. The escrow
+	// backs coins in circulation whether or not conversions are enabled at the
+	// moment, so this does not depend on the module's parameters.
 	if err := k.monitorModuleApprovalEvent(ctx, erc20, receipt); err != nil {
 		return err
+	}
+
+	params := k.GetParams(ctx)
+	if !params.EnableErc20 || !params.EnableEVMHook {
+		// no error is returned to avoid reverting the tx and allow for other post
+		// processing txs to pass and
+		return nil
 	}
 
 	for i, log := range receipt.Logs {
